@@ -10,3 +10,4 @@ def rules(ctx):
     S.walker_rules(ctx)
     S.retained_checksum_rules(ctx)
     S.c08_r8_flush_keeps_page(ctx)
+    S.c12_tree_rules(ctx)
